@@ -74,7 +74,7 @@ const (
 type AcctCfg struct {
 	Kind    int               `json:"kind"`
 	Bal     map[string]string `json:"bal"`
-	VestAmt string            `json:"vest,omitempty"` // nund amount that is vesting (kinds != base)
+	VestAmt string            `json:"vest,omitempty"`     // nund amount that is vesting (kinds != base)
 	VestEnd int64             `json:"vest_end,omitempty"` // seconds after Epoch
 }
 
@@ -115,7 +115,7 @@ type GenesisCfg struct {
 	Ent       EntCfg    `json:"ent"`
 	Wrk       RegCfg    `json:"wrk"`
 	Bcn       RegCfg    `json:"bcn"`
-	StreamFee string    `json:"stream_fee"` // sdk.Dec string
+	StreamFee string    `json:"stream_fee"`       // sdk.Dec string
 	Grants    [][2]int  `json:"grants,omitempty"` // (granter, grantee): generic authz grants for all custom msgs
 	MaxGas    int64     `json:"max_gas"`          // consensus block max gas (-1 unlimited)
 }
@@ -138,6 +138,9 @@ type NodeOpts struct {
 	// InvCheckPeriod: the node's --inv-check-period (x/crisis asserts all registered invariants in end-block every
 	// that many blocks; 0 = never). Node-local.
 	InvCheckPeriod uint `json:"inv_check_period,omitempty"`
+	// MinGasPrices: the node's minimum-gas-prices setting (app.toml; und writes 25.0nund by default). Node-local:
+	// only this node's mempool admission looks at it.
+	MinGasPrices string `json:"min_gas_prices,omitempty"`
 }
 
 type Account struct {
@@ -227,6 +230,9 @@ func (c *Chain) baseOptions() []func(*baseapp.BaseApp) {
 		opts = append(opts, baseapp.SetPruning(pruningtypes.NewPruningOptions(pruningtypes.PruningEverything)))
 	case "custom":
 		opts = append(opts, baseapp.SetPruning(pruningtypes.NewCustomPruningOptions(3, 10)))
+	}
+	if c.Opts.MinGasPrices != "" {
+		opts = append(opts, baseapp.SetMinGasPrices(c.Opts.MinGasPrices))
 	}
 	if c.Opts.IAVLCache > 0 {
 		opts = append(opts, baseapp.SetIAVLCacheSize(c.Opts.IAVLCache))
